@@ -125,7 +125,7 @@ def unbound_key_commitments(ctx, lines, limit=2, slots=range(15)):
                 continue
             v2 = vbytes[:off0 + 48 * j] + bytes.fromhex(m2[0].strip()) + vbytes[off0 + 48 * j + 48:]
             p2 = proof[:9 * 48] + bytes.fromhex(m2[1].strip()) + proof[10 * 48:]
-            out.append("expect-reject:shifted-key-commitment-%d %s %s %s %s %s" % (j, toks[2], toks[3], v2.hex(), " ".join(toks[5:-1]), p2.hex()))
+            out.append("expect-reject:shifted-key-commitment-%d %s %s %s %s %s %s" % (j, toks[1], toks[2], toks[3], v2.hex(), " ".join(toks[5:-1]), p2.hex()))
     return out
 
 
@@ -166,6 +166,11 @@ class VerifyRunner:
             self.n += 1
             self.distinct.add(ln)
             exp, what = tg.split(":", 1)
+            if io.startswith("bad-request") or mo.startswith("bad-request"):
+                # a malformed request is a defect of this machinery, never an agreement
+                self.ctx.violation("machinery:bad-request", {"why": "a generated request was not understood", "tag": tg,
+                                                              "request": ln[:600], "impl_output": io[:100], "model_output": mo[:100]}, no_input=True)
+                continue
             import re
             self.tag(re.sub(r"-\d+(-|$)", r"-N\1", what))
             self.tag("impl:" + io.split(" ")[0])
